@@ -63,10 +63,19 @@ def gen_cases(tier, seed):
         if r.random() < 0.5:
             sched = [t for t in sched for _ in range(r.choice([1, 1, 2, 3]))]
         add(mode, progs, sched + drain_suffix(len(progs), 8 * max(len(p) for p in progs) + 8), "random-%s" % mode)
+    # multi-threaded start-up stress (heartbeat enabled): no model side, oracle only
+    for i in range(4 if tier == "quick" else 16):
+        cs.append(Case("mt%d" % i, "mtstart", [150 if tier == "quick" else 1000], "mt-startup-stress", True, model=False))
     return cs
 
 
 def oracle(c, ir):
+    if c.drv == "mtstart":
+        import re
+        m = re.search(r"settings_not_first=(\d+)", ir)
+        if not m:
+            return "unparsable: " + ir[:200]
+        return None if m.group(1) == "0" else "multi-threaded start-up: the settings frame was not the first frame of the session in %s of %s runs (%s)" % (m.group(1), c.args[0], ir)
     o = parse_out(ir)
     if o is None:
         return "unparsable implementation output: " + ir[:200]
